@@ -244,9 +244,7 @@ func atomSafe(c *gh.Cfg, argv []string, comp string) bool {
 		if comp != "" {
 			return false
 		}
-		if c.Mode == 2 && strings.HasPrefix(t, "-") && !strings.HasPrefix(t, "--") {
-			return false
-		}
+
 		for i := 0; i < len(t); {
 			rn, size := utf8.DecodeRuneInString(t[i:])
 			if rn == utf8.RuneError && size == 1 {
@@ -262,6 +260,11 @@ func atomSafe(c *gh.Cfg, argv []string, comp string) bool {
 			name := t
 			if i := strings.Index(t, "="); i >= 0 {
 				name = t[:i]
+			}
+			if c.Mode == 2 && !strings.HasPrefix(t, "--") && len(t) > 1 {
+				// SingleDash: only the first letter is a name, the rest is a value
+				_, size := utf8.DecodeRuneInString(t[1:])
+				name = t[:1+size]
 			}
 			if !utf8.ValidString(name) {
 				return false
